@@ -114,6 +114,11 @@ pub struct Shared {
     /// hook invoked at every user-function invocation (crash points, deferred writes, reads)
     pub on_invoke: RefCell<Option<Box<dyn FnMut(&Inv)>>>,
     pub armed: RefCell<Vec<Armed>>,
+    /// one-shot injected panic: (which user function, how many matching invocations to skip)
+    pub crash: RefCell<Option<(CrashAt, u32)>>,
+    pub crashed: Cell<Option<CrashAt>>,
+    /// fn/boxed cutoffs answer with equality instead of an uninterpreted predicate
+    pub cut_eq: Cell<bool>,
     pub performed: RefCell<Vec<Performed>>,
 }
 
@@ -128,6 +133,27 @@ pub struct UpdLog {
 }
 
 impl Shared {
+    pub fn maybe_crash(&self, at: CrashAt) {
+        let fire = {
+            let mut c = self.crash.borrow_mut();
+            match c.as_mut() {
+                Some((a, skip)) if *a == at => {
+                    if *skip == 0 {
+                        *c = None;
+                        true
+                    } else {
+                        *skip -= 1;
+                        false
+                    }
+                }
+                _ => false,
+            }
+        };
+        if fire {
+            self.crashed.set(Some(at));
+            panic!("injected crash in user function {at:?}");
+        }
+    }
     /// perform the writes armed for this trigger (one-shot)
     pub fn fire(&self, trigger: Trigger, in_handler: bool) {
         loop {
@@ -145,15 +171,24 @@ impl Shared {
         }
     }
     fn invoke(&self, key: NodeKey, args: Vec<SV>) {
+        let inv = Inv { round: self.round.get(), key, args };
+        self.log.borrow_mut().push(inv.clone());
+        {
+            let mut h = self.on_invoke.borrow_mut();
+            if let Some(h) = h.as_mut() {
+                h(&inv)
+            }
+        }
         if let NodeKey::Main(i) = key {
             self.fire(Trigger::Node(i), false);
         }
-        let inv = Inv { round: self.round.get(), key, args };
-        self.log.borrow_mut().push(inv.clone());
-        let mut h = self.on_invoke.borrow_mut();
-        if let Some(h) = h.as_mut() {
-            h(&inv)
-        }
+        let at = match key {
+            NodeKey::Main(i) => CrashAt::Fn(NodeKeyKind::Main, i),
+            NodeKey::BindFn(i) => CrashAt::Fn(NodeKeyKind::BindFn, i),
+            NodeKey::Rhs(i, ..) => CrashAt::Fn(NodeKeyKind::Rhs, i),
+            NodeKey::Cutoff(i) => CrashAt::Fn(NodeKeyKind::Cutoff, i),
+        };
+        self.maybe_crash(at);
     }
 }
 
@@ -224,6 +259,18 @@ pub struct Armed {
     pub var: usize,
     pub kind: WKind,
     pub handle: Var<SV>,
+}
+#[derive(Clone, Copy, Debug, PartialEq, Eq)]
+pub enum CrashAt {
+    Fn(NodeKeyKind, usize),
+    Handler(usize),
+}
+#[derive(Clone, Copy, Debug, PartialEq, Eq)]
+pub enum NodeKeyKind {
+    Main,
+    BindFn,
+    Rhs,
+    Cutoff,
 }
 #[derive(Clone, Copy, Debug, PartialEq, Eq)]
 pub enum Trigger {
@@ -297,6 +344,7 @@ pub enum Action {
     ArmWrite(usize, usize, WKind),
     ArmHandlerWrite(usize, usize, WKind),
     DropVar(usize),
+    ArmPanic(CrashAt, u32),
     Stabilise,
     Write(usize),
     WriteSame(usize),
@@ -341,6 +389,8 @@ pub struct Ops {
     pub drop_var: bool,
     pub wkinds_outside: Vec<WKind>,
     pub arm_vars: Vec<usize>,
+    /// user functions at which a panic may be injected
+    pub crash_points: Vec<(CrashAt, u32)>,
 }
 
 #[derive(Clone, Default)]
@@ -356,6 +406,7 @@ pub struct Monitors {
     pub c11: bool,
     pub c06: bool,
     pub c08: bool,
+    pub c13: bool,
 }
 
 #[derive(Clone)]
@@ -373,6 +424,9 @@ pub struct WorldCfg {
     pub observe_at_start: Vec<usize>,
     /// nodes whose cutoff kind is a symbolic choice made before the history starts
     pub cut_nodes: Vec<usize>,
+    /// kinds offered for cut_nodes (empty = all five); `cut_eq`: fn/boxed cutoffs compare with ==
+    pub cut_kinds: Vec<CutKind>,
+    pub cut_eq: bool,
     pub len: usize,
     pub ops: Ops,
     pub mon: Monitors,
@@ -398,6 +452,8 @@ pub struct World {
     pub dropped_vars: Vec<Var<SV>>,
     pub arms_used: usize,
     pub dropped_model: BTreeMap<usize, SV>,
+    pub crash_armed_once: bool,
+    pub poisoned: bool,
 }
 
 thread_local! {
@@ -411,6 +467,10 @@ fn cut_fn<const I: usize>(a: &SV, b: &SV) -> bool {
             sh.invoke(NodeKey::Cutoff(I), vec![a.clone(), b.clone()]);
         }
     });
+    let eq = CUT_SH.with(|c| c.borrow().as_ref().map_or(false, |sh| sh.cut_eq.get()));
+    if eq {
+        return a == b;
+    }
     decide_pred(8 + I as u16, &[a.clone(), b.clone()])
 }
 
@@ -434,6 +494,9 @@ impl World {
             updates: RefCell::new(vec![]),
             on_invoke: RefCell::new(None),
             armed: RefCell::new(vec![]),
+            crash: RefCell::new(None),
+            crashed: Cell::new(None),
+            cut_eq: Cell::new(false),
             performed: RefCell::new(vec![]),
         });
         let mut w = World {
@@ -455,13 +518,17 @@ impl World {
             dropped_vars: vec![],
             arms_used: 0,
             dropped_model: BTreeMap::new(),
+            crash_armed_once: false,
+            poisoned: false,
         };
         for s in cfg.specs.clone() {
             w.build(s);
         }
         CUT_SH.with(|c| *c.borrow_mut() = Some(w.sh.clone()));
+        w.sh.cut_eq.set(cfg.cut_eq);
         for n in cfg.cut_nodes.clone() {
-            let kinds = [CutKind::Default, CutKind::Never, CutKind::Always, CutKind::Fn, CutKind::Boxed];
+            let all = vec![CutKind::Default, CutKind::Never, CutKind::Always, CutKind::Fn, CutKind::Boxed];
+            let kinds = if cfg.cut_kinds.is_empty() { all } else { cfg.cut_kinds.clone() };
             let k = kinds[choose(kinds.len())];
             w.set_cutoff(n, k);
             op_log(format!("SetCutoff({n}, {k:?})"));
@@ -632,6 +699,9 @@ impl World {
             })),
             CutKind::Boxed => h.set_cutoff_fn_boxed(move |a: &SV, b: &SV| {
                 sh.invoke(NodeKey::Cutoff(n), vec![a.clone(), b.clone()]);
+                if sh.cut_eq.get() {
+                    return a == b;
+                }
                 decide_pred(8 + n as u16, &[a.clone(), b.clone()])
             }),
         }
@@ -701,6 +771,58 @@ impl World {
         if performed.is_empty() && !stable {
             violation("C08/unstable-without-pending-work", format!("is_stable() is false right after stabilise #{round} although nothing was written inside it"));
         }
+    }
+
+    /// A user function panicked inside stabilise and the caller caught it (C13).
+    fn after_crash(&mut self, round: u32, log_start: usize) {
+        self.poisoned = true;
+        let at = self.sh.crashed.get().unwrap();
+        let from_handler = matches!(at, CrashAt::Handler(_));
+        cover(match at {
+            CrashAt::Fn(NodeKeyKind::Main, _) => "panic-in-node-function",
+            CrashAt::Fn(NodeKeyKind::BindFn, _) => "panic-in-bind-closure",
+            CrashAt::Fn(NodeKeyKind::Rhs, _) => "panic-in-scope-created-node",
+            CrashAt::Fn(NodeKeyKind::Cutoff, _) => "panic-in-cutoff-function",
+            CrashAt::Handler(_) => "panic-in-update-handler",
+        });
+        // observers that were created before this stabilise are in use now, if it got that far
+        let mut memo = BTreeMap::new();
+        let n_slots = self.obs.borrow().len();
+        for k in 0..n_slots {
+            let (node, dead, has) = {
+                let o = self.obs.borrow();
+                (o[k].node, o[k].st == OSt::Dead, !o[k].handles.is_empty())
+            };
+            if !has {
+                continue;
+            }
+            let got = self.obs.borrow()[k].handles[0].try_get_value();
+            match got {
+                Err(_) => {}
+                Ok(v) => {
+                    if dead {
+                        violation("C13/dead-observer-readable-after-panic", format!("slot {k} returned a value"));
+                    } else if !from_handler {
+                        violation("C13/value-readable-after-panic-in-propagation", format!("a panic in {at:?} escaped stabilise #{round}, yet observer slot {k} on node {node} returned {v:?}"));
+                    } else {
+                        let want = self.eval(node, &mut memo);
+                        let (v2, w2) = (v.clone(), want.clone());
+                        require("C13/partial-result-after-handler-panic", F::eq(&v, &want), move || format!("after a panic in an update handler observer slot {k} returned {v2:?}, the fully propagated value is {w2:?}"));
+                    }
+                }
+            }
+        }
+        // a further stabilise must refuse to run
+        let before = self.sh.log.borrow().len();
+        let st = self.state.clone();
+        let again = catch(move || st.stabilise());
+        let ran = self.sh.log.borrow().len() - before;
+        match again {
+            Ok(()) => violation("C13/stabilise-runs-after-panic", format!("stabilise returned normally after a panic escaped the previous one ({ran} user functions ran)")),
+            Err(_) if ran > 0 => violation("C13/stabilise-computes-before-refusing", format!("{ran} user functions ran in the stabilise after the poisoned one")),
+            Err(_) => {}
+        }
+        let _ = log_start;
     }
 
     fn c06_after_stabilise(&mut self, round: u32, log: &[Inv]) {
@@ -986,6 +1108,17 @@ impl World {
         if self.dirty {
             v.push(Action::Stabilise);
         }
+        if !self.crash_armed_once {
+            for (at, skip) in &o.crash_points {
+                let ok = match at {
+                    CrashAt::Handler(slot) => obs.get(*slot).map_or(false, |s| s.subs.iter().any(|x| x.active)),
+                    _ => true,
+                };
+                if ok {
+                    v.push(Action::ArmPanic(*at, *skip));
+                }
+            }
+        }
         if o.write_kinds {
             for (i, _) in &self.vars {
                 if self.var_dropped.contains(i) {
@@ -1161,6 +1294,11 @@ impl World {
                 self.arms_used += 1;
                 self.dirty = true;
             }
+            Action::ArmPanic(at, skip) => {
+                *self.sh.crash.borrow_mut() = Some((*at, *skip));
+                self.crash_armed_once = true;
+                self.dirty = true;
+            }
             Action::DropVar(i) => {
                 // the harness keeps the watch node (Incr) but gives up its Var handle; the only
                 // remaining Var handles are the ones held by armed writes
@@ -1255,6 +1393,7 @@ impl World {
                     let read = weak_obs.upgrade().and_then(|o| o.try_borrow().ok().and_then(|o| o[slot].handles.first().map(|h| h.try_get_value())));
                     sh.updates.borrow_mut().push(UpdLog { round: sh.round.get(), during_stabilise_call: sh.in_stabilise.get(), slot, sub: j, upd: u.cloned(), read });
                     sh.fire(Trigger::Handler(slot), true);
+                    sh.maybe_crash(CrashAt::Handler(slot));
                 });
                 drop(h);
                 match (st, r) {
@@ -1379,7 +1518,20 @@ impl World {
         let cone_start = self.cone(&roots, &|b| lb.get(&b).copied());
         let recomputed_before = self.state.stats().recomputed;
         self.sh.in_stabilise.set(true);
-        self.state.stabilise();
+        if self.cfg.mon.c13 {
+            let st = self.state.clone();
+            let r = catch(move || st.stabilise());
+            self.sh.in_stabilise.set(false);
+            if let Err(msg) = r {
+                if !msg.contains("injected crash") {
+                    panic!("{}", msg);
+                }
+                self.after_crash(round, log_start);
+                return;
+            }
+        } else {
+            self.state.stabilise();
+        }
         self.sh.in_stabilise.set(false);
         self.dirty = false;
         self.stabilised_once = true;
@@ -1655,6 +1807,9 @@ impl World {
     }
 
     pub fn finish(&mut self) {
+        if self.poisoned {
+            return;
+        }
         if self.dirty {
             op_log("Stabilise".into());
             self.stabilise();
@@ -1735,6 +1890,9 @@ pub fn run_world(cfg: &WorldCfg) {
     let mut w = ManuallyDrop::new(World::new(cfg));
     let r = catch(|| {
         for _ in 0..cfg.len {
+            if w.poisoned {
+                break;
+            }
             let acts = w.enabled();
             if acts.is_empty() {
                 break;
@@ -1748,6 +1906,9 @@ pub fn run_world(cfg: &WorldCfg) {
         Ok(()) => {
             let r2 = catch(move || drop(ManuallyDrop::into_inner(w)));
             if let Err(msg) = r2 {
+                if cfg.mon.c13 {
+                    violation("C13/panic-while-dropping-handles-and-state", msg.clone());
+                }
                 if cfg.mon.c04 {
                     violation("C04/panic-in-drop", msg.clone());
                 }
